@@ -71,8 +71,8 @@ type Out struct {
 func (o *Out) feat(name string) { o.Feat[name] = true }
 
 var plainWords = []string{"work", "meeting", "lunch", "call", "with", "the", "team", "review", "fix", "bug", "deploy", "docs", "email", "break", "planning", "Q3", "v2.1", "and", "on", "for", "at", "https://klog.example/docs?a=1"}
-var unicodeWords = []string{"café", "naïve", "日本語", "读书", "Ünïcödé", "emoji😀", "Ελληνικά", "кофе", "ñandú", "é", "zero​width", "nb sp", "—dash—", "½", "ﬂuff"}
-var lookAlikeWords = []string{"8:00", "-", "9:00", "1h", "-5m", "?", "??", "2020-01-01", "(8h!)", "8:00-?", "<23:00", "0:30>", "100%", "%d", "%s", "%!", "50%o", "12:00am", "#", "#=", "=x", "a#b", "--flag", "\\-45m", "\\n", "24:00", "http://x.io/#top", "https://example.com/a_(b)", "www.example.com", "mailto:me@example.com"}
+var unicodeWords = []string{"café", "naïve", "日本語", "读书", "Ünïcödé", "emoji😀", "Ελληνικά", "кофе", "ñandú", "é", "zero​width", "nb sp", "—dash—", "½", "ﬂuff", "bom\ufeffinside", "\ufefflead", "zw\u200bsp", "\u2060wj"}
+var lookAlikeWords = []string{"8:00", "-", "9:00", "1h", "-5m", "?", "??", "2020-01-01", "(8h!)", "8:00-?", "<23:00", "0:30>", "100%", "%d", "%s", "%!", "50%o", "12:00am", "#", "#=", "=x", "a#b", "--flag", "\\-45m", "\\n", "24:00", "30m", "45m", "5m", "0m", "1h30m", "15:00", "http://x.io/#top", "https://example.com/a_(b)", "www.example.com", "mailto:me@example.com"}
 var jsonWords = []string{"\"quoted\"", "back\\slash", "a/b", "<tag>", "&amp;", "tab\there", " ", " ", "ctl\u0001x", "\u007f", "𝔘𝔫𝔦", "'single'", "{json}", "[1,2]", "\\u0041", "\b", "\f", "é\"\\",
 	// the spellings an encoder itself produces, as literal text (backslash, u, four hex digits; backslash + letter)
 	"\\u003c", "C:\\users\\u003e", "\\u0026amp", "\\u2028", "\\\\", "\\\"", "\\t", "\\/", "\u2028", "\u2029", "</script>",
@@ -80,7 +80,9 @@ var jsonWords = []string{"\"quoted\"", "back\\slash", "a/b", "<tag>", "&amp;", "
 	"\x1b[1;31mURGENT\x1b[0m", "\x1b[0m", "\x1b[2J", "\x1b[38;5;208mwarn", "\x1b]8;;http://x\x1b\\", "\x1b[31"}
 var tagShapes = []string{"#work", "#Work", "#WORK", "#home-office", "#under_score", "#读书", "#Ünï", "#ticket=891", "#ticket=892", "#project=\"22/48.3\"", "#call='Liz Jones'", "#a=1", "#a=2", "#a", "#A=1", "#empty=", "#q=\"\"", "#open=\"unterminated", "#x=y-z", "#mix='it\"s'", "#n=\"it's\"", "#t1", "#t2", "#t3", "#dup", "#dup=v", "#dup=V", "#ort=köln", "#ort=zürich", "#city=\"São Paulo\"", "#名前=値", "#tag=\"日本 語\"", "#emoji=\"😀 ok\"", "#size='5\"'", "#q=\"'tis\"", "#x=\"'\"", "#status= open", "#prio=",
 	// names that extend another name by a character sorting before '=' or after it (row grouping in `tags --values`)
-	"#dup-x", "#dup2", "#dup_x=v", "#a-b", "#a1=3", "#ticket-open", "#ticket2=1", "#t1-a=v", "#t1=w", "#t10"}
+	"#dup-x", "#dup2", "#dup_x=v", "#a-b", "#a1=3", "#ticket-open", "#ticket2=1", "#t1-a=v", "#t1=w", "#t10",
+	// long names and values in scripts with multi-byte letters (more bytes than characters), characters of category Sk, a backslash in front of the closing quote
+	"#длинноеназваниетегапроекта", "#这是一个非常长的标签名称用于测试", "#προγραμματισμόςκαιανάπτυξη=\"μεγάληαξίαγιατηνετικέταμας\"", "#topic=\"x^2 + y^2\"", "#cmd='`ls -la`'", "#dir=\"C:\\\"", "#p='a\\\"b'", "#ticket=12", "#ticket"}
 
 // word returns one summary word according to the options.
 func word(r *core.Rand, o *Opts, out *Out) string {
